@@ -2,7 +2,7 @@
 import dns
 import pktgen
 
-SLICE = "BUILDW (write_to / write_compressed_to into Vec, growable cursor, fixed cursor, fixed slice) with BUILD follow-ups (the vector-returning entry points)"
+SLICE = "TXTTEXT (a TXT built by TXT::try_from(&str) inside a packet, plain and compressed), BUILDW (write_to / write_compressed_to into Vec, growable cursor, fixed cursor, fixed slice) with BUILD follow-ups (the vector-returning entry points)"
 RULE = ("seeded packets x {plain, compressed} x writer configurations: Vec with and without existing content; growable cursor at "
         "offset 0 / 2 / k over empty, shorter and longer pre-filled storage; fixed cursor and fixed slice of EVERY capacity from 0 "
         "to len+2 for small packets (sampled for larger ones), at offset 0 and 2. Oracle: the bytes between start and end equal the "
@@ -46,6 +46,12 @@ def cases(rng, tier):
             DESCS[c] = p
             CFG[c] = (m, kind, start, sto, t)
             out.append(c)
+    # TXT built from text (TXT::try_from(&str) keeps its own running size for len()): lengths around the chunk size, inside a packet
+    lens = sorted(set([0, 1, 2, 100, 1000, 1100, 1270, 2032] + [k * m + d for k in (1, 2, 3, 4) for m in (253, 254, 255, 256) for d in (-1, 0, 1)]))
+    for L in lens:
+        for ch in ("a", "é"):
+            s = (ch * L).encode()[:L] if ch == "a" else ("é" * (L // 2) + ("a" if L % 2 else "")).encode()
+            out.append("TXTTEXT " + (s.hex() or "-"))
     return out
 
 
@@ -54,21 +60,42 @@ def normalize(case, out):
 
 
 def classify(case, out):
+    if case.startswith("TXTTEXT"):
+        return "TXTTEXT"
     t = case.split()
     return t[1] + t[2] + ":" + out.split(" ")[0]
 
 
 def nontrivial(case, out):
-    return out.startswith("OK")
+    return out.startswith("OK") or case.startswith("TXTTEXT")
 
 
 def oracle(case, out):
     if out.startswith("PANIC") or out in ("HANG", "CRASH"):
         return "%s for writer configuration %s" % (out, case[:120])
+    if case.startswith("TXTTEXT"):
+        parts = out.split(" | ")
+        if len(parts) != 4:
+            return None
+        msgs = []
+        for leg, name in ((parts[2], "build_bytes_vec"), (parts[3], "build_bytes_vec_compressed")):
+            if not leg.startswith("OK "):
+                return "%s failed for a TXT built from %d bytes of text: %r" % (name, len(case.split()[1]) // 2, leg[:80])
+            msg = bytes.fromhex(leg[3:])
+            w = dns.walk(msg)
+            if w is None:
+                return "%s of a packet holding TXT::try_from(<%d bytes of text>) is not a well-framed message: %s" % (name, len(case.split()[1]) // 2, leg[3:120])
+            if w["end"] != len(msg) or w["counts"] != (0, 1, 0, 0):
+                return "%s: %d bytes follow the last counted entry / counts %r" % (name, len(msg) - w["end"], w["counts"])
+            msgs.append(msg)
+        if msgs[0] != msgs[1]:
+            return "plain and compressed output differ although nothing is compressible (TXT from %d bytes of text)" % (len(case.split()[1]) // 2)
     return None
 
 
 def followups(case, out):
+    if case.startswith("TXTTEXT"):
+        return []
     m, kind, start, sto, t = CFG[case]
     return ["BUILD %s %s" % (m, t)]
 
